@@ -911,6 +911,9 @@ class OpsMixin:
             return base  # generic alias Foo[T]
         if isinstance(base, Cst) and isinstance(base.value, (tuple, list)) and isinstance(idx, Cst):
             return Cst(base.value[idx.value])
+        if self.mode == "unparse" and isinstance(base, TNode) and base.kind in ("$NestHole", "$Index") and isinstance(idx, Cst) and isinstance(idx.value, int):
+            # a character of the text accumulated so far (the unparser asks what a piece ends with)
+            return StrOp("index", [base, idx.value])
         raise AnalysisError(f"subscript of {base!r} with {idx!r} at {self.cur_site}")
 
     def table_lookup(self, table: PDict, key: TypeOf, node):
